@@ -242,13 +242,14 @@ func runLifeScenario(sc LifeScenario) LifeResult {
 		// succeeds although the context is done. Whatever Connect then returns, the events must agree with it: an error
 		// means no event at all; success means REGISTER, and the DISCONNECTED the cancellation brings comes after it.
 		ctx, cancel = context.WithCancel(context.Background())
+		lg.add("connect-call")
+		lg.add("cause cancel") // the context ends before the call or inside it: before REGISTER either way
 		if sc.CancelEarly == "before" {
 			cancel()
 		} else {
 			memconn.PresetDialDelay(url, 20*time.Millisecond)
 			go func() { time.Sleep(5 * time.Millisecond); cancel() }()
 		}
-		lg.add("connect-call")
 		err := conn.ConnectContext(ctx)
 		if err != nil {
 			lg.add("connect-ret err")
